@@ -169,7 +169,7 @@ def plan(tier, seed):
             Jg = 1
             for pin in (range(k) if Lg >= 3 else [None]):
                 slices.append({'id': '%s:%s:%s:L%d%s' % (g, parser, lexer, Lg, '' if pin is None else ':pin%d' % pin), 'mode': 'realised',
-                               'params': {'g': g, 'parser': parser, 'lexer': lexer, 'L': Lg, 'J': Jg, 'pin': pin, 'njunk': (4 if Lg >= 3 else 8) if quick else 8}, 'timeout': 400 if quick else 3000,
+                               'params': {'g': g, 'parser': parser, 'lexer': lexer, 'L': Lg, 'J': Jg, 'pin': pin, 'njunk': 4 if quick else 8}, 'timeout': 400 if quick else 3000,
                                'twin': pin in (None, k - 1), 'bound': {'chars': Lg, 'junk': Jg, 'classes': k}})
     meta = {
         'rule': 'one path per (class-string, junk prefix, junk suffix, representation); non-trivial = accepted non-empty text',
